@@ -45,17 +45,22 @@ WStep(s) == [b |-> W(s.b), a |-> W(s.a)]
 Init == l = 1 /\ st = InitState(UNK) /\ cut = TRUE /\ taint = "" /\ InitRegs
 
 \* ---- adoption of recorded observables (after a drift the recorded values win)
-AdoptLen(s, ul) ==
-  LET n == Len(s.past)
-      p == IF n = ul THEN s.past
-           ELSE IF n < ul THEN s.past \o [i \in 1..(ul - n) |-> Step(UNK, UNK, "?")]
-           ELSE IF ul = 0 THEN <<>> ELSE Fold(s.past, ul - 1, UNK)
-      o == [i \in 1..Len(s.open) |-> [s.open[i] EXCEPT !.len0 = IF @ > ul THEN ul ELSE @]]
-  IN [s EXCEPT !.past = p, !.open = o]
+\* The stack lengths disagree with the model: which recorded document belongs to which step of the engine is no
+\* longer known.  What remains true whatever the engine did with its steps: undoing ALL of them must give the document
+\* the history started from (the `b` of the bottom step).  Everything else becomes UNK, so that the property layer
+\* never judges the engine by the model's idea of how steps are grouped.
+Forget(s, ul) ==
+  LET b0 == IF s.past = <<>> THEN UNK ELSE s.past[1].b IN
+  [s EXCEPT !.past = [i \in 1..ul |-> Step(IF i = 1 THEN b0 ELSE UNK, UNK, "?")],
+            !.future = [i \in 1..Len(s.future) |-> Step(UNK, UNK, "?")],
+            !.open = [i \in 1..Len(s.open) |-> [s.open[i] EXCEPT !.len0 = IF @ > ul THEN ul ELSE @]]]
+AdoptLen(s, ul) == IF Len(s.past) = ul THEN s ELSE Forget(s, ul)
 AdoptCr(s, cr) ==
   IF cr = 0 THEN [s EXCEPT !.future = <<>>]
   ELSE IF s.future = <<>> THEN [s EXCEPT !.future = <<Step(UNK, UNK, "?")>>] ELSE s
 Adopt(s, e) == AdoptCr(AdoptLen([s EXCEPT !.doc = D(e)], e.ul), e.cr)
+\* n steps of which only the first `before` and the last `after` document are known
+Span(b, a, n, t) == [i \in 1..n |-> Step(IF i = 1 THEN b ELSE UNK, IF i = n THEN a ELSE UNK, t)]
 
 StacksAs(s, e) == e.ul = Len(s.past) /\ (e.cr = 1) = CanRedo(s)
 Tag(s) == IF s = <<>> THEN "none" ELSE Top(s).t
@@ -131,7 +136,14 @@ Group(e) ==
     LET nxt == IF e.kind = "end" THEN EndExplicit(st) ELSE EndDrop(st) IN
     /\ Expect(e.doc = W(st.doc) /\ e.x = X(st.doc), "end-changed-document", l, <<>>)
     /\ Expect(StacksAs(nxt, e), "end-stacks", l, [kind |-> e.kind, ul |-> e.ul, expul |-> Len(nxt.past), cr |-> e.cr])
-    /\ st' = Adopt(nxt, e) /\ UNCHANGED <<cut, taint>>
+    \* an engine that closes the group into a different number of steps than the model: the steps pushed since Begin
+    \* become e.ul - len0 steps between the same two documents
+    /\ LET g == Top(st.open)  cnt == e.ul - g.len0 IN
+       st' = IF e.ul # Len(nxt.past) /\ cnt >= 1 /\ Len(st.past) > g.len0
+             THEN AdoptCr([nxt EXCEPT !.doc = D(e),
+                                      !.past = SubSeq(st.past, 1, g.len0) \o Span(st.past[g.len0 + 1].b, Top(st.past).a, cnt, "group")], e.cr)
+             ELSE Adopt(nxt, e)
+    /\ UNCHANGED <<cut, taint>>
 
 Next ==
   /\ l <= Len(Rec)
